@@ -9,6 +9,9 @@ import time
 
 HERE = os.path.dirname(os.path.abspath(__file__))
 PY = sys.executable
+# checks rebuild from /repo's working tree simply by importing it; VERIF_REPO
+# points the workers at a scratch copy (mutant / fix trials) instead
+REPO = os.environ.get('VERIF_REPO', '/repo')
 
 
 class WorkerDied(Exception):
@@ -16,7 +19,8 @@ class WorkerDied(Exception):
 
 
 class Worker:
-    def __init__(self, hashseed, repo='/repo', extra_env=None, tag=''):
+    def __init__(self, hashseed, repo=None, extra_env=None, tag=''):
+        repo = repo or REPO
         env = dict(os.environ)
         env['PYTHONHASHSEED'] = str(hashseed)
         env['DST_REPO'] = repo
@@ -95,7 +99,7 @@ class Pool:
     """``n`` workers spread over ``hashseeds``; jobs are addressed to a hash
     seed and run by whichever worker of that seed is free."""
 
-    def __init__(self, hashseeds, n=16, repo='/repo', extra_env=None):
+    def __init__(self, hashseeds, n=16, repo=None, extra_env=None):
         self.hashseeds = [str(h) for h in hashseeds]
         self.queues = {h: queue.Queue() for h in self.hashseeds}
         self.results = queue.Queue()
@@ -151,7 +155,7 @@ class Pool:
             w.close()
 
 
-def one_shot(hashseed, job, repo='/repo', extra_env=None):
+def one_shot(hashseed, job, repo=None, extra_env=None):
     """Run one job in a fresh interpreter."""
     w = Worker(hashseed, repo, extra_env, '-fresh%d' % (time.time_ns() % 10**6))
     try:
